@@ -13,7 +13,10 @@ const varRule = "one case = one generated Set/Apply/Cancel/Reset history over 1-
 
 const stubRule = "one case = one stub configuration history (default first, then 0-3 When / In clauses with Return/AndReturn/Returns sequences of length 1-6, calls interleaved with configuration) on one zoo target (fixed, variadic with 0-2 leading fixed parameters) followed by sequential calls (real calls and When.Eval) and, for C05, 2-4 concurrent caller tasks preempted at matcher.result.loaded; non-trivial = at least one clause or a sequence longer than one or at least one context switch in the concurrent phase; distinct = hash of (operations, context-switch sequence, fired events)"
 
+const ifaceRule = "one case = one generated history of interface-variable mocks (Apply and As().Return per method, any subset and order, 1-3 variables biased to same-type pairs, 1-2 builders), calls of single and of all methods through the variable, builder dropped, Reset, with seeded GC events (clobberfree + churn) at every yield including iface.stub.made / iface.applied between two method mocks; non-trivial = at least two method mocks or a GC event; distinct = hash of (operations, fired events)"
+
 func init() {
+	props["C07"] = propCfg{World: "iface", Level: "exploration", Quick: 4000, Thorough: 300000, Chunk: 100, Rule: ifaceRule, Assume: commonAssume}
 	props["C04"] = propCfg{World: "stub", Level: "exploration", Quick: 8000, Thorough: 600000, Chunk: 200, Rule: stubRule, Assume: commonAssume}
 	props["C05"] = propCfg{World: "stub", Level: "exploration", Quick: 6000, Thorough: 400000, RaceQ: 600, RaceT: 30000, Chunk: 200, Rule: stubRule, Assume: commonAssume}
 	props["C08"] = propCfg{World: "var", Level: "exploration", Quick: 6000, Thorough: 400000, Chunk: 200, Rule: varRule, Assume: commonAssume}
